@@ -7,6 +7,10 @@
    f64 value: Base/TDigestBits.v f64_of_f32), empty / single / general forms with buffered values,
    any contents of the unused bytes and undefined flag bits, and the two big-endian formats of the
    reference implementation (weights and compression stored as floating point numbers).
+   There is NO theorem about a layout-level ENCODER (none is defined): "every image a foreign writer can
+   emit" is approximated by "every byte string the layout decoder reads as an admissible state".
+   The bit-level float functions (Base/TDigestBits.v: f64_of_f32, uint_of_f64, is_nan64) are shared by the
+   model and the layout decoder: they are trusted, tied to the crate only by the correspondence leg.
    Statements only; proofs in Proofs/TDigestLayoutProofs.v. *)
 From DS Require Import Base.Prelude Base.TDigestBits Model.TDigestCodec Spec.TDigestLayout Proofs.TDigestCodec Proofs.TDigestLayoutProofs.
 Open Scope N_scope.
@@ -35,19 +39,20 @@ Theorem c13_tdigest_ref_admissible_images_accepted : forall is_f32 bs a,
 Proof. exact ref_accepted. Qed.
 
 (* non-vacuity: a float-flavour image with one centroid (2.5f, w 3), one buffered value 1.0f, min 1.0f,
-   max 4.0f, garbage in the unused bytes and in the undefined flag bits; and a reference asSmallBytes
+   max 4.0f, garbage in the unused bytes and in the undefined flag bits: the layout decoder reads a, a is
+   admissible, and the modelled reader run on the bytes returns exactly that state; and a reference asSmallBytes
    image with two centroids of (float) weight 1 and 2 *)
 Example c13_tdigest_example :
   let img := [2; 1; 20; 200; 0; 0xf8; 0xab; 0xcd;  1; 0; 0; 0;  1; 0; 0; 0;  0; 0; 0x80; 0x3f;  0; 0; 0x80; 0x40;
               0; 0; 0x20; 0x40;  3; 0; 0; 0;  0; 0; 0x80; 0x3f] in
   let a := mkTdAbs 200 false (Some (0x3ff0000000000000, 0x4010000000000000)) [(0x4004000000000000, 3)] [0x3ff0000000000000] in
   spec_decode Float img = Some a /\ abs_admissible a = true /\
-  (exists s, tdb_dec true img = Ok s /\ abs_of s = a) /\
+  tdb_dec true img = Ok (mkTdb 200 false 0x3ff0000000000000 0x4010000000000000 [(0x4004000000000000, 3)] 3 [0x3ff0000000000000]) /\
+  abs_of (mkTdb 200 false 0x3ff0000000000000 0x4010000000000000 [(0x4004000000000000, 3)] 3 [0x3ff0000000000000]) = a /\
   let ref := [0; 0; 0; 2;  0x3f; 0xf0; 0; 0; 0; 0; 0; 0;  0x40; 0x10; 0; 0; 0; 0; 0; 0;  0x42; 0xc8; 0; 0;  0; 0xd2; 4; 0x1a;  0; 2;
               0x3f; 0x80; 0; 0;  0x3f; 0x80; 0; 0;   0x40; 0; 0; 0;  0x40; 0x80; 0; 0] in
   spec_decode_ref ref = Some (mkTdAbs 100 false (Some (0x3ff0000000000000, 0x4010000000000000))
                                 [(0x3ff0000000000000, 1); (0x4010000000000000, 2)] []).
 Proof.
-  cbv zeta. split; [vm_compute; reflexivity|]. split; [vm_compute; reflexivity|]. split; [|vm_compute; reflexivity].
-  eexists. split; vm_compute; reflexivity.
+  cbv zeta. repeat split; vm_compute; reflexivity.
 Qed.
